@@ -11,11 +11,15 @@ import time
 VERIF = os.path.dirname(os.path.dirname(os.path.abspath(__file__)))
 REPO = os.environ.get("VERIF_REPO", "/repo")
 SPEC = os.path.join(VERIF, "spec")
-WORK = os.path.join(VERIF, "work")
+# VERIF_SCRATCH=<dir> redirects everything a check writes (work files, evidence, replay files) to <dir>: used when a
+# check is pointed at a private copy of the repository (tools/try_mutant.sh), so that such runs can go on side by side
+# and never overwrite the evidence of the unchanged tree
+SCRATCH = os.environ.get("VERIF_SCRATCH")
+WORK = os.path.join(SCRATCH or VERIF, "work")
 HARNESS = os.environ.get("VERIF_HARNESS", os.path.join(VERIF, "harness"))
 VH = os.path.join(HARNESS, "target", "release", "vh")
-EVIDENCE = os.path.join(VERIF, "evidence")
-REPLAY = os.path.join(VERIF, "replay")
+EVIDENCE = os.path.join(SCRATCH or VERIF, "evidence")
+REPLAY = os.path.join(SCRATCH or VERIF, "replay")
 KNOWN = os.path.join(VERIF, "known_findings.json")
 os.environ.setdefault("VERIF_WORK", WORK)   # scratch directory the harness uses
 TLA_CP = "/opt/veriftools/tla/tla2tools.jar:/opt/veriftools/tla/CommunityModules-deps.jar"
